@@ -32,10 +32,21 @@ Definition after_pods (i : lp_input) (labels : list (string * string * string)) 
 Definition live_new (i : lp_input) (p_after : pod) : bool :=
   negb (p_deleting p_after) && consistent (p_pth p_after) (p_crh p_after) (i_rev i).
 
+(* the revision a pod REALLY is of: the hash label it carried before the pass, or, when it carried none and is owned by a
+   ReplicaSet, that ReplicaSet's template hash -- not whatever hash the pass itself wrote onto it *)
+Definition true_crh (b a : pod) : string :=
+  if sempty (p_crh b) then match p_owner b with RSHash h => h | _ => p_crh a end else p_crh b.
 (* clause 1: batch labels are given only to live pods of the new revision *)
 Definition only_live_new (i : lp_input) (after : list pod) : bool :=
   forallb (fun ba => let '(b, a) := ba in
-     (String.eqb (p_rid b) (p_rid a) && String.eqb (p_bid b) (p_bid a)) || live_new i a)
+     (String.eqb (p_rid b) (p_rid a) && String.eqb (p_bid b) (p_bid a)) ||
+     (live_new i a && negb (p_deleting b) && consistent (p_pth b) (true_crh b a) (i_rev i)))
+    (combine (i_pods i) after).
+(* ... and a controller-revision-hash written onto a pod is the hash of the pod's own ReplicaSet *)
+Definition hash_is_the_owners (i : lp_input) (after : list pod) : bool :=
+  forallb (fun ba => let '(b, a) := ba in
+     String.eqb (p_crh b) (p_crh a) ||
+     (sempty (p_crh b) && match p_owner b with RSHash h => String.eqb (p_crh a) h | _ => false end))
     (combine (i_pods i) after).
 
 (* clause 2: the number of live new-revision pods carrying (rollout-id, batch k) never exceeds
@@ -87,6 +98,7 @@ Definition judge (c : case) : list verdict :=
     clause "C12_tolerates_any_labels(no panic)" (negb (ob_panic o) || negb (names_have_ordinal i)) ] ++
   (if ob_panic o || ob_err o then [] else
   [ clause "C12_only_live_new_revision" (only_live_new i after);
+    clause "C12_written_hash_is_the_pods_own_replicaset_hash" (hash_is_the_owners i after);
     clause "C12_never_over_budget" (never_over_budget i after);
     clause "C12_no_relabel" (no_relabel i after);
     clause "C12_stale_pods_use_no_budget" (budget_only_for_own i after);
